@@ -27,8 +27,8 @@ FLAGS = ["subprocess", "net-connect", "net-listen", "ffi-define", "fs-write", "f
 GROUPS = ["fs", "net", "ffi", "all"]
 
 SHAPES = ["marker", "newpath", "dir", "hostname", "addr", "port", "cmd", "envname", "zero", "r", "w", "rt", "wct", "a", "r+", "w+",
-          "file-r", "file-w", "stream-r", "stream-w", "table", "fn", "sig"]
-THREAD_SHAPES = ["marker", "newpath", "dir", "hostname", "addr", "port", "cmd", "envname", "zero", "r", "w", "rt", "wct", "a", "r+", "w+", "table", "sig"]
+          "file-r", "file-w", "stream-r", "stream-w", "table", "fn", "sig", "unix", "datagram"]
+THREAD_SHAPES = ["marker", "newpath", "dir", "hostname", "addr", "port", "cmd", "envname", "zero", "r", "w", "rt", "wct", "a", "r+", "w+", "table", "sig", "unix"]
 
 # Functions never called by the sweep, with the reason (none of them is a capability-gated operation
 # whose omission could hide a violation, except where noted).
